@@ -148,7 +148,7 @@ Print Assumptions C04_text_with_attributes.
    <name attr...>TEXT</name>  with TEXT = the payload, escapes resolved, nothing else between the tags
    ([leaf_tail c tag sc v] = `>` ++ text of v ++ `</tag>` whenever the element has a non-empty text, also
    when it carries the self-closing mark `/`: C04_leaf_tail_text).
-   Hypotheses as in C03_expand_element_text; [value_inline]: the text has no line break and does not
+   Hypotheses as in C03_expand_element_text (BEM off: [mc_bem m = false]); [value_inline]: the text has no line break and does not
    start with a block-level tag (such text is laid out on its own lines: C12). *)
 Theorem C04_expand_text_element :
   forall (x : xconfig) (e : selem),
@@ -156,7 +156,7 @@ Theorem C04_expand_text_element :
     let c := xc_o x in
     selem_ok e -> jsx_ok (mc_jsx m) e -> mc_text m = WNone ->
     assoc_str (se_name e) (mc_snippets m) = None -> match_lorem (se_name e) = LNo ->
-    xsl_rule_applies m e = false ->
+    xsl_rule_applies m e = false -> mc_bem m = false ->
     html_family (mc_syntax m) -> oc_comment_enabled c = false ->
     oc_format_leaf c = false -> mem_str (se_name e) (oc_format_force c) = false ->
     let attrs := merge_spec (mc_reverse_attrs m) [] (written_mentions e) in
@@ -320,7 +320,7 @@ Qed.
 
 (* non-vacuity of text_with_attributes / expand: p.c[t=1]{a>b*3 \{x\} (y)}/  (the `/` mark does not drop the text) *)
 Example C04_text_attr_nonvacuous :
-  let x := mkX (mkMConfig (S "html") [] [] WNone None None false None [] false false)
+  let x := mkX (mkMConfig (S "html") [] [] WNone None None false None [] false false false [] [] None)
                (mkOconfig (mkOfmt [] [] []) [] [] (S "double") true false [] [] 0 false [] (S "html") [] false [] [] []
                           false None None) in
   let e := mkSElem (S "p") [PClass 0 (S "c"); PSet [] (spaced [mkSAttr false (S "t") false (SUnq (S "1"))])]
